@@ -432,7 +432,7 @@ def _one_env(actual, expected, args, names, lane_bits, watch, rm, fp):
         try:
             if watch:
                 env["watch"] = watch
-            a = tcompile.compiled(actual).ev(env)
+            a = tcompile.compiled(actual, watch).ev(env)
         except T.Poison as p:
             w = {"args": {}, "got": "undefined: %s" % p, "expected": hex(e)}
             if fp:
@@ -463,7 +463,7 @@ def _one_env(actual, expected, args, names, lane_bits, watch, rm, fp):
 
 def interpreted(t):
     """True when every operator in t has an exact evaluation in term.ev"""
-    OK = {"const", "arg", "mem", "concat", "slice", "rep", "not", "and", "or", "xor", "add", "mul", "sub",
+    OK = {"const", "arg", "mem", "mxcsr0", "concat", "slice", "rep", "not", "and", "or", "xor", "add", "mul", "sub",
           "neg", "icmp", "fcmp", "select", "popsum", "x86.fpclass", "x86.pshufb", "tabload", "x86.getexp", "x86.getmant", "x86.fixupimm", "x86.range", "x86.permx", "x86.divq.q", "x86.divq.r", "satus", "satss", "fadd", "fsub", "fmul", "fdiv", "call:llvm.sqrt", "call:llvm.fabs", "shlsat", "lshrsat", "ashrsat", "shl", "lshr", "ashr",
           "fshl", "fshr", "call:llvm.ctpop", "call:llvm.ctlz", "call:llvm.cttz", "call:llvm.bswap",
           "call:llvm.bitreverse", "call:llvm.abs", "call:llvm.umin", "call:llvm.umax",
@@ -564,7 +564,7 @@ def exhaustive_lanes(actual, expected, argspecs, names, lane_bits, env_ok=None, 
             return None, "enumeration budget"
         nargs = len(argspecs)
         szl = max(1, (T.size(ta) + T.size(te)) // 8)
-        cta, cte = tcompile.compiled(ta), tcompile.compiled(te)
+        cta, cte = tcompile.compiled(ta, watch), tcompile.compiled(te)
         allowance = 2500000 if (T.has_fp(ta) or T.has_fp(te)) else 12000000
         for v in range(1 << len(order)):
             if (v & 255) == 0:
